@@ -607,6 +607,88 @@ func c14AddPairs(c *enumx.Ctx) {
 	c.Sample("-a task,always -A exit,never -S open => rejected (both -a and -A)")
 }
 
+// c14Requoting: pairs of lines that consist of the SAME characters apart from quoting: a valid line, then the line in
+// which a run of its words is one quoted word (and the other way round).  Parsed one after the other in one process:
+// each line means what ITS words say, whatever was parsed before (an answer remembered under a key that does not
+// tell the two apart would show here).
+func c14Requoting(c *enumx.Ctx) {
+	bases := [][]group{
+		{{Flag: "-w", Arg: "/var/log/app"}, {Flag: "-p", Arg: "wa"}, {Flag: "-k", Arg: "logs"}},
+		{{Flag: "-D", Bare: true}, {Flag: "-k", Arg: "old"}, {Flag: "-k", Arg: "rules"}},
+		{{Flag: "-a", Arg: "always,exit"}, {Flag: "-S", Arg: "open"}, {Flag: "-F", Arg: "auid>=1000"}, {Flag: "-k", Arg: "access"}},
+		{{Flag: "-a", Arg: "always,exit"}, {Flag: "-F", Arg: "path=/etc/passwd"}, {Flag: "-F", Arg: "perm=wa"}, {Flag: "-k", Arg: "identity"}},
+		{{Flag: "-A", Arg: "never,user"}, {Flag: "-F", Arg: "uid=0"}, {Flag: "-C", Arg: "uid!=euid"}},
+		{{Flag: "-w", Arg: "/etc"}, {Flag: "-k", Arg: "a"}, {Flag: "-k", Arg: "b"}},
+	}
+	for _, b := range bases {
+		var words []string
+		for _, g := range b {
+			words = append(words, g.tokens()...)
+		}
+		for i := 0; i < len(words); i++ {
+			for j := i + 2; j <= len(words); j++ {
+				if !c.Mine() {
+					continue
+				}
+				// the line in which words[i:j] are ONE word
+				merged := append(append(append([]string{}, words[:i]...), strings.Join(words[i:j], " ")), words[j:]...)
+				mg := regroup(merged)
+				for _, order := range [][2][]group{{b, mg}, {mg, b}} {
+					checkLine(c, order[0])
+					checkLine(c, order[1])
+					checkLine(c, order[0])
+				}
+			}
+		}
+	}
+	c.Sample("-w /var/log/app -p wa -k logs, then -w '/var/log/app -p wa -k logs' => the second line's path is the whole quoted word")
+}
+
+// regroup reads a word list the way the reference does: a flag takes the next word as its argument.
+func regroup(words []string) []group {
+	var out []group
+	for i := 0; i < len(words); i++ {
+		w := words[i]
+		switch {
+		case w == "-D" || w == "--":
+			out = append(out, group{Flag: w, Bare: true})
+		case len(w) == 2 && w[0] == '-' && strings.ContainsAny(w[1:], "aAFCSkpw") && i+1 < len(words):
+			out = append(out, group{Flag: w, Arg: words[i+1]})
+			i++
+		default:
+			out = append(out, group{Arg: w})
+		}
+	}
+	return out
+}
+
+// c14Amounts: one flag repeated 2, 64, 255, 256, 257, 512, 65535, 65536 times, alone and next to one flag of another
+// operation: what is on the line decides (the mix is an error however many times a flag occurs, every argument is
+// reflected), amounts at the widths of small counters included.
+func c14Amounts(c *enumx.Ctx) {
+	many := []group{{Flag: "-F", Arg: "auid>=1000"}, {Flag: "-S", Arg: "open"}, {Flag: "-k", Arg: "k"}, {Flag: "-p", Arg: "r"}, {Flag: "-C", Arg: "uid!=euid"}, {Flag: "-D", Bare: true}}
+	others := [][]group{nil, {{Flag: "-w", Arg: "/etc/passwd"}}, {{Flag: "-a", Arg: "always,exit"}}, {{Flag: "-a", Arg: "always,exit"}, {Flag: "-S", Arg: "open"}}, {{Flag: "-D", Bare: true}}, {{Flag: "-w", Arg: "/etc"}, {Flag: "-p", Arg: "wa"}}}
+	for _, g := range many {
+		for _, n := range []int{2, 64, 255, 256, 257, 512, 65535, 65536} {
+			for oi, o := range others {
+				if !c.Mine() {
+					continue
+				}
+				if n > 600 && oi > 2 {
+					continue
+				}
+				rep := make([]group, n)
+				for i := range rep {
+					rep[i] = g
+				}
+				checkLine(c, append(append([]group{}, o...), rep...))
+				checkLine(c, append(append([]group{}, rep...), o...))
+			}
+		}
+	}
+	c.Sample("-w /etc/passwd followed by 256 x -F auid>=1000 => rejected (watch and syscall-rule flags mixed)")
+}
+
 func c14Lines(c *enumx.Ctx) {
 	maxLen := 3
 	if c.Tier == "thorough" {
@@ -636,4 +718,6 @@ func init() {
 	gens["c14-fvalues"] = c14FValues
 	gens["c14-environment"] = c14Environment
 	gens["c14-addpairs"] = c14AddPairs
+	gens["c14-requoting"] = c14Requoting
+	gens["c14-amounts"] = c14Amounts
 }
